@@ -226,7 +226,7 @@ func runOne(spec *PropSpec, bin string, job Job, base string, out *merged) {
 	}
 	to := job.Timeout
 	if to == 0 {
-		to = 900
+		to = 420
 	}
 	cmd := exec.Command(bin, args...)
 	lf, _ := os.Create(logPath)
@@ -235,7 +235,7 @@ func runOne(spec *PropSpec, bin string, job Job, base string, out *merged) {
 	env := os.Environ()
 	switch job.Variant {
 	case "race":
-		env = append(env, "GORACE=halt_on_error=0 log_path="+base+"/race.log history_size=3")
+		env = append(env, "GORACE=halt_on_error=0 exitcode=0 log_path="+base+"/race.log history_size=3")
 	case "asan":
 		env = append(env, "ASAN_OPTIONS=detect_leaks=0:abort_on_error=0:halt_on_error=0:exitcode=66:log_path="+base+"/asan.log")
 	}
@@ -265,7 +265,9 @@ func runOne(spec *PropSpec, bin string, job Job, base string, out *merged) {
 		}
 	}
 	lf.Close()
-	_ = start
+	if os.Getenv("VERIF_VERBOSE") != "" {
+		fmt.Printf("  job %s %s seed %d: %.1fs args %s\n", job.Variant, job.Mode, job.Seed, time.Since(start).Seconds(), firstN(job.Args, 200))
+	}
 	exitCode := 0
 	if err != nil {
 		exitCode = -1
